@@ -116,6 +116,7 @@
 #ifndef _DOXYGEN_SKIP
 
 static qlisttbl_obj_t *newobj(const char *name, const void *data, size_t size);
+static void putobj(qlisttbl_t *tbl, qlisttbl_obj_t *obj);
 static bool insertobj(qlisttbl_t *tbl, qlisttbl_obj_t *obj);
 static qlisttbl_obj_t *findobj(qlisttbl_t *tbl, const char *name, qlisttbl_obj_t *retobj);
 
@@ -254,28 +255,9 @@ bool qlisttbl_put(qlisttbl_t *tbl, const char *name, const void *data, size_t si
         return false;
     }
 
-    // lock table
+    // put it into the table
     qlisttbl_lock(tbl);
-
-    // if unique flag is set, remove same key
-    if (tbl->unique == true) qlisttbl_remove(tbl, name);
-
-    // insert into table
-    if (tbl->num == 0) {
-        obj->prev = NULL;
-        obj->next = NULL;
-    } else {
-        if (tbl->inserttop == false) {
-            obj->prev = tbl->last;
-            obj->next = NULL;
-        } else {
-            obj->prev = NULL;
-            obj->next = tbl->first;
-        }
-    }
-    insertobj(tbl, obj);
-
-    // unlock table
+    putobj(tbl, obj);
     qlisttbl_unlock(tbl);
 
     return true;
@@ -967,10 +949,12 @@ ssize_t qlisttbl_load(qlisttbl_t *tbl, const char *filepath, char sepchar,
     char *str = qfile_load(filepath, NULL);
     if (str == NULL) return -1;
 
-    // parse
-    qlisttbl_lock(tbl);
+    // parse the file into a chain of new objects first. The table is not
+    // touched before every entry of the file has been built, so that a memory
+    // allocation failure in the middle of the file leaves the table as it was.
+    qlisttbl_obj_t *head = NULL, *tail = NULL;
+    bool failed = false;
     char *offset, *buf;
-    int cnt = 0;
     for (offset = str; *offset != '\0'; ) {
         // get one line into buf
         for (buf = offset; *offset != '\n' && *offset != '\0'; offset++);
@@ -984,22 +968,51 @@ ssize_t qlisttbl_load(qlisttbl_t *tbl, const char *filepath, char sepchar,
         if ((buf[0] == '#') || (buf[0] == '\0')) continue;
 
         // parse
+        qlisttbl_obj_t *obj = NULL;
         char *data = strdup(buf);
-        char *name  = _q_makeword(data, sepchar);
-        qstrtrim(data);
-        qstrtrim(name);
-        if (decode == true) qurl_decode(data);
-
-        // add to the table.
-        if (qlisttbl_put(tbl, name, data, strlen(data) + 1) == true) {
-            cnt++;
+        char *name = (data != NULL) ? _q_makeword(data, sepchar) : NULL;
+        if (name != NULL) {
+            qstrtrim(data);
+            qstrtrim(name);
+            if (decode == true) qurl_decode(data);
+            obj = newobj(name, data, strlen(data) + 1);
         }
-
         free(name);
         free(data);
+        if (obj == NULL) {
+            failed = true;
+            break;
+        }
+
+        // append to the chain
+        if (tail == NULL) head = obj;
+        else tail->next = obj;
+        tail = obj;
+    }
+    free(str);
+
+    if (failed == true) {
+        while (head != NULL) {
+            qlisttbl_obj_t *next = head->next;
+            free(head->name);
+            free(head->data);
+            free(head);
+            head = next;
+        }
+        errno = ENOMEM;
+        return -1;
+    }
+
+    // add to the table.
+    int cnt = 0;
+    qlisttbl_lock(tbl);
+    while (head != NULL) {
+        qlisttbl_obj_t *next = head->next;
+        putobj(tbl, head);
+        cnt++;
+        head = next;
     }
     qlisttbl_unlock(tbl);
-    free(str);
 
     return cnt;
 }
@@ -1099,6 +1112,29 @@ static qlisttbl_obj_t *newobj(const char *name, const void *data, size_t size)
     obj->size = size;
 
     return obj;
+}
+
+// lock must be obtained from caller
+// puts an object made by newobj() into the table; never fails.
+static void putobj(qlisttbl_t *tbl, qlisttbl_obj_t *obj)
+{
+    // if unique flag is set, remove same key
+    if (tbl->unique == true) qlisttbl_remove(tbl, obj->name);
+
+    // insert into table
+    if (tbl->num == 0) {
+        obj->prev = NULL;
+        obj->next = NULL;
+    } else {
+        if (tbl->inserttop == false) {
+            obj->prev = tbl->last;
+            obj->next = NULL;
+        } else {
+            obj->prev = NULL;
+            obj->next = tbl->first;
+        }
+    }
+    insertobj(tbl, obj);
 }
 
 // lock must be obtained from caller
